@@ -180,8 +180,9 @@ claim('C04',
       'stub atomix maps and a gNMI device model (deletes at element boundaries, then updates); then the device restarts empty, a new mastership '
       'term begins and the REAL configuration controller re-pushes: z3 proves the device holds exactly the stored live leaves with their values '
       'both after the applies and after the re-push; the last applied Set may be one request that deletes /a and writes /a/b/c; an optional further Set '
-      'that the device REFUSES (committed, apply FAILED) never reaches the device, not even through the re-push. The protocol side (re-push before any new change in a term, election ids) is decided on the '
-      'extracted transition relation by C10.',
+      'that the device REFUSES (committed, apply FAILED) never reaches the device, not even through the re-push. On the extracted v2 transition relation (device unavailable / refusing at will): no proposal is reported '
+      'APPLIED unless its change reached the device - BMC from the initial state and from a waypoint with the first transaction committed and '
+      'unapplied and the second rejected behind it (the target connected later). Re-push before any new change in a term and election ids are C10\'s.',
       'History 1..2 (quick) / 3 (thorough) + the refused Set; device reachable during the history (offline / later connection is covered by '
       'the C02/C10 transition-system checks); atomix map contract stubbed. Trusted: go/ssa, executor, z3.',
       'SSA symbolic execution + SMT (z3), case-split operation histories vs reference model', 'DESIGN.md 6/C04')
